@@ -356,6 +356,260 @@ func runC10IterNext(c *core.Ctx) {
 // sliced value first.
 func runC10Slice(c *core.Ctx) {
 	p := c.P
+	c.Rule("C10.slicedomain", "bounds and slice speak of the same thing: in package traversal/selector, where the bounds of a slice expression come out of a bounds-normalising helper of the package that was told a length, that length is len() of the very value that is sliced - not of another representation of it (bytes of a string versus its runes): otherwise a subset matcher over a non-ASCII string slices past the end and the walk panics", 2)
+	{
+		nsd := 0
+		for _, fn := range p.ModFns {
+			pk := core.FuncPkg(fn)
+			if pk == nil || core.RelPkg(pk.Path()) != "traversal/selector" || len(fn.Blocks) == 0 || fn.Synthetic != "" {
+				continue
+			}
+			n := 0
+			core.Instrs(fn, func(in ssa.Instruction) {
+				sl, ok := in.(*ssa.Slice)
+				if !ok || (sl.Low == nil && sl.High == nil) {
+					return
+				}
+				// bounds that derive from a call of a package function given a len(...)
+				var lens []ssa.Value
+				for _, b := range []ssa.Value{sl.Low, sl.High} {
+					if b == nil {
+						continue
+					}
+					// the same normalisation written out in the body: the bound is computed from a len() directly
+					for w := range core.BackSlice(b, core.SliceOpts{Stores: true, Local: true}) {
+						if c2, ok := w.(*ssa.Call); ok {
+							if bi, ok := c2.Call.Value.(*ssa.Builtin); ok && bi.Name() == "len" {
+								lens = append(lens, c2.Call.Args[0])
+							}
+						}
+					}
+					for w := range core.BackSlice(b, core.SliceOpts{Stores: true}) {
+						e, ok := w.(*ssa.Extract)
+						if !ok {
+							continue
+						}
+						cl, ok := e.Tuple.(*ssa.Call)
+						if !ok || cl.Call.StaticCallee() == nil || core.FuncPkg(cl.Call.StaticCallee()) != pk {
+							continue
+						}
+						for _, a := range cl.Call.Args {
+							for w2 := range core.BackSlice(a, core.SliceOpts{ThroughCallsIf: func(c2 *ssa.Call) bool { bi, ok := c2.Call.Value.(*ssa.Builtin); return ok && bi.Name() == "len" }}) {
+								if c2, ok := w2.(*ssa.Call); ok {
+									if bi, ok := c2.Call.Value.(*ssa.Builtin); ok && bi.Name() == "len" {
+										lens = append(lens, c2.Call.Args[0])
+									}
+								}
+							}
+						}
+					}
+				}
+				if len(lens) == 0 {
+					return
+				}
+				nsd++
+				n++
+				// the sliced value, through the phis of a variable assigned on several paths (but through no conversion)
+				srcs := map[ssa.Value]bool{}
+				var walk func(v ssa.Value, d int)
+				walk = func(v ssa.Value, d int) {
+					v = core.Strip(v)
+					if d > 4 || srcs[v] {
+						return
+					}
+					srcs[v] = true
+					if phi, ok := v.(*ssa.Phi); ok {
+						for _, e := range phi.Edges {
+							walk(e, d+1)
+						}
+					}
+				}
+				walk(sl.X, 0)
+				same := true
+				for _, lv := range lens {
+					if !srcs[core.Strip(lv)] && !core.SameValue(lv, sl.X) {
+						same = false
+					}
+				}
+				c.Check(same, fmt.Sprintf("%s#bounds-of-sliced-value%d", core.FuncKey(fn), n), p.Pos(sl.Pos()), "the bounds were computed from the length of the sliced value", "the bounds of this slice were normalised against the length of a different value than the one that is sliced (e.g. the byte length of a string for its rune slice): an end bound within the one length lies past the end of the other, and the slice expression panics during the walk")
+			})
+		}
+		if nsd == 0 {
+			c.Undecided("traversal/selector#subset-slices", "-", "no slice with helper-normalised bounds found (the subset matcher was expected)")
+		}
+	}
+	c.Rule("C10.index", "no element of untrusted bytes is read before their length was looked at: in library packages, every element access with a constant index k into a byte slice or string that is not of the function's own making (make / literal / array) is dominated by an edge on which len() of that very value was compared so that it exceeds k", 1)
+	for _, fn := range p.ModFns {
+		pk := core.FuncPkg(fn)
+		if pk == nil || len(fn.Blocks) == 0 || fn.Synthetic != "" {
+			continue
+		}
+		if rel := core.RelPkg(pk.Path()); !libraryPkg(rel) {
+			continue
+		}
+		n := 0
+		core.Instrs(fn, func(in ssa.Instruction) {
+			var x, idx ssa.Value
+			switch a := in.(type) {
+			case *ssa.IndexAddr:
+				x, idx = a.X, a.Index
+			case *ssa.Lookup:
+				if _, isMap := a.X.Type().Underlying().(*types.Map); isMap {
+					return
+				}
+				x, idx = a.X, a.Index
+			default:
+				return
+			}
+			k, isK := core.ConstInt(idx)
+			if !isK {
+				return
+			}
+			// only byte strings (slices of bytes, strings): that is what untrusted input arrives as
+			switch t := x.Type().Underlying().(type) {
+			case *types.Slice:
+				if b, ok := t.Elem().Underlying().(*types.Basic); !ok || b.Kind() != types.Uint8 {
+					return
+				}
+			case *types.Basic:
+				if t.Info()&types.IsString == 0 {
+					return
+				}
+			default:
+				return // arrays and pointers to arrays are checked by the compiler
+			}
+			// of the function's own making?
+			own := false
+			switch m := core.Strip(x).(type) {
+			case *ssa.MakeSlice:
+				if l, ok := core.ConstInt(m.Len); ok && l > k {
+					own = true
+				}
+			case *ssa.Slice:
+				if al, ok := m.X.(*ssa.Alloc); ok {
+					if pt, ok := al.Type().Underlying().(*types.Pointer); ok {
+						if at, ok := pt.Elem().Underlying().(*types.Array); ok && at.Len() > k && m.High == nil && m.Low == nil {
+							own = true
+						}
+					}
+				}
+			case *ssa.Const:
+				if m.Value != nil && m.Value.Kind() == constant.String && int64(len(constant.StringVal(m.Value))) > k {
+					own = true
+				}
+			}
+			if own {
+				return
+			}
+			n++
+			guard := core.EdgesWhere(fn, func(r core.Rel) bool {
+				lc, ok := core.Strip(r.X).(*ssa.Call)
+				if !ok {
+					return false
+				}
+				bi, ok := lc.Call.Value.(*ssa.Builtin)
+				if !ok || bi.Name() != "len" || !(core.SameValue(lc.Call.Args[0], x) || core.SameLoad(core.Strip(lc.Call.Args[0]), core.Strip(x))) {
+					return false
+				}
+				cv := core.ConstVal(r.Y)
+				if cv == nil || cv.Kind() != constant.Int {
+					return false
+				}
+				kk := constant.MakeInt64(k)
+				switch r.Op {
+				case token.GTR:
+					return constant.Compare(cv, token.GEQ, kk)
+				case token.GEQ:
+					return constant.Compare(cv, token.GTR, kk)
+				case token.EQL:
+					return constant.Compare(cv, token.GTR, kk)
+				case token.NEQ:
+					return k == 0 && constant.Compare(cv, token.EQL, constant.MakeInt64(0))
+				}
+				return false
+			})
+			ok := false
+			for e := range guard {
+				if core.EdgeDominates(e, in.Block()) {
+					ok = true
+				}
+			}
+			c.Check(ok, fmt.Sprintf("%s#element%d-at-%d", core.FuncKey(fn), n, k), p.Pos(in.Pos()), "the length was tested before the element is read", fmt.Sprintf("element %d of a byte string that came from outside is read on a path on which its length was not found to exceed %d: input that is shorter (an empty byte string in a link, an empty key) makes the decoder panic instead of returning an error", k, k))
+		})
+	}
+
+	c.Rule("C10.untrustedindex", "a number that came out of a path segment or a node (PathSegment.Index, Node.AsInt) is used as a slice index only where it was found to be at least 0 and compared from above: \"-1\" is a legal field name in a selector and parses as a number", 0)
+	for _, fn := range p.ModFns {
+		pk := core.FuncPkg(fn)
+		if pk == nil || len(fn.Blocks) == 0 || fn.Synthetic != "" {
+			continue
+		}
+		if rel := core.RelPkg(pk.Path()); !parserSide(rel) {
+			continue
+		}
+		n := 0
+		core.Instrs(fn, func(in ssa.Instruction) {
+			ia, ok := in.(*ssa.IndexAddr)
+			if !ok {
+				return
+			}
+			if _, isK := core.ConstInt(ia.Index); isK {
+				return
+			}
+			var src *ssa.Extract
+			for w := range core.BackSlice(ia.Index, core.SliceOpts{Local: true}) {
+				e, ok := w.(*ssa.Extract)
+				if !ok || e.Index != 0 {
+					continue
+				}
+				if cl, ok := e.Tuple.(*ssa.Call); ok && (core.IsMethod(cl, core.ModPath+"/datamodel", "PathSegment", "Index") || (cl.Call.IsInvoke() && cl.Call.Method.Name() == "AsInt")) {
+					src = e
+				}
+			}
+			if src == nil {
+				return
+			}
+			n++
+			about := func(v ssa.Value) bool {
+				v = core.Strip(v)
+				return v == core.Strip(ia.Index) || v == ssa.Value(src)
+			}
+			lower, upper := false, false
+			for e := range core.EdgesWhere(fn, func(r core.Rel) bool { return about(r.X) }) {
+				if !core.EdgeDominates(e, ia.Block()) {
+					continue
+				}
+				for _, a := range core.ImpliedAtoms(e) {
+					if a.Rel == nil {
+						continue
+					}
+					for _, r := range []core.Rel{*a.Rel, a.Rel.Flip()} {
+						if !about(r.X) {
+							continue
+						}
+						switch r.Op {
+						case token.GEQ, token.GTR:
+							if cv := core.ConstVal(r.Y); cv != nil && cv.Kind() == constant.Int {
+								min := cv
+								if r.Op == token.GTR {
+									min = constant.BinaryOp(cv, token.ADD, constant.MakeInt64(1))
+								}
+								if constant.Compare(min, token.GEQ, constant.MakeInt64(0)) {
+									lower = true
+								}
+							}
+						case token.LSS, token.LEQ:
+							upper = true
+						case token.EQL:
+							lower, upper = true, true
+						}
+					}
+				}
+			}
+			c.Check(lower && upper, fmt.Sprintf("%s#index-from-outside%d", core.FuncKey(fn), n), p.Pos(ia.Pos()), "bounded from below and above before it is used as an index", "a number parsed from a path segment / read from a node is used as a slice index without having been found >= 0 and bounded from above on this path: a selector field named \"-1\" (or an index past the end) makes the walk panic")
+		})
+	}
+
 	c.Rule("C10.slice", "a slice bound derived from a CID prefix field (digest length taken from untrusted link bytes) is dominated by a comparison bounding it by len() of the sliced value", 1)
 	isSrc := func(v ssa.Value) bool {
 		switch x := v.(type) {
